@@ -346,6 +346,7 @@ func (c *Client) SendIQ(ctx context.Context, iq *stanza.IQ) (chan stanza.IQ, err
 	if err := c.Send(iq); err != nil {
 		return nil, err
 	}
+	verifPoint("sendiq.sent", iq.Attrs.Id)
 	return c.router.NewIQResultRoute(ctx, iq.Attrs.Id), nil
 }
 
